@@ -448,11 +448,16 @@ func c09GenIDs(r *vRand) (string, []string) {
 }
 
 func c09Uniq(n int) string {
-	g := defaultIDGenerator()
+	// "unique within the process": ids are drawn from SEVERAL default generators (one per TracerProvider in a real
+	// process, e.g. two providers side by side or a provider that was replaced), interleaved; a duplicate across
+	// generators counts like a duplicate within one.
+	gs := []IDGenerator{defaultIDGenerator(), defaultIDGenerator(), defaultIDGenerator(),
+		NewTracerProvider().idGenerator, NewTracerProvider().idGenerator}
 	ids := make([]uint64, 0, n)
 	zeros := 0
 	ctx := context.Background()
 	for i := 0; i < n; i++ {
+		g := gs[(i/3)%len(gs)]
 		var s trace.SpanID
 		if i%4 == 0 {
 			var t trace.TraceID
